@@ -60,7 +60,7 @@ const (
 	StratStarve  = 2 // sticky + one task kind starved for a bounded number of steps
 )
 
-const MaxTasks = 2048
+const MaxTasks = 8192
 const MaxSites = 1 << 15
 
 // Config is the per-run swarm configuration (drawn from the plan stream).
@@ -149,6 +149,7 @@ type Stats struct {
 	MaxLive      int
 	StarvedSteps int64
 	ForcedFair   int64 // decisions taken by the bounded-fairness rule
+	SpinYields     int64 // yields forced on a task that passed thousands of statements without a scheduling point
 	ExternalBlocks int64 // times the running task was found blocked outside the simulator
 }
 
@@ -366,6 +367,7 @@ func sendNoReply(r *Run, id int32, op int32) {
 //
 //go:norace
 func do(op int32, a, b, c, d int64) int64 {
+	pSpin = 0
 	r, t := curRun, curTask
 	if atomic.LoadInt32(&r.unstableA) != 0 {
 		// a task that was blocked outside the simulator may run in parallel with the task that holds
@@ -529,6 +531,8 @@ func (r *Run) step(m msg) bool {
 	case opYield:
 		if m.a > 0 {
 			r.St.PYields++
+		} else if m.a < 0 {
+			r.St.SpinYields++
 		}
 	case opLock:
 		ts.wait, ts.obj, ts.since = waitLock, m.a, r.St.Steps
